@@ -35,7 +35,7 @@ func profiles() map[string]Profile {
 	p = base
 	p.Name = "C02"
 	p.MemOnly = 0
-	p.Flush, p.Reopen, p.SetColl, p.RmColl, p.Image, p.Dump = 10, 10, 3, 2, 3, 4
+	p.Flush, p.Reopen, p.SetColl, p.RmColl, p.Image, p.Dump, p.Revert = 10, 10, 3, 2, 3, 4, 2
 	p.BigVals, p.LongNames, p.BadNames = true, true, true
 	m["C02"] = p
 
